@@ -94,8 +94,15 @@ class Pool:
         n = shape[0] if len(shape) == 1 else shape[0] * shape[1]
         data = [self.scalar(kind) for _ in range(n)]
         if len(shape) == 1:
-            return (BoolArray1D if kind == "b" else IntArray1D)(data)
-        return (BoolArray2D if kind == "b" else IntArray2D)(data, tuple(shape))
+            arr = (BoolArray1D if kind == "b" else IntArray1D)(data)
+        else:
+            arr = (BoolArray2D if kind == "b" else IntArray2D)(data, tuple(shape))
+        # the caller goes on using its own list: the array must not follow (history; the oracle walks the array element by element)
+        if self.rng.random() < 0.5:
+            data.append(self.scalar(kind))
+        else:
+            data.clear()
+        return arr
 
     def variables(self):
         return {v.id: v for v in self.bv + self.iv}
@@ -339,7 +346,14 @@ def helpers(ctx, pool, rng, n):
         bb = pool.array("b", (max(hh, 1), max(ww, 1)))
         for y in range(max(hh, 1)):
             for x in range(max(ww, 1)):
-                i2.four_neighbors(y, x), bb.four_neighbors((y, x)), i2.four_neighbor_indices((y, x)), bb.four_neighbor_indices(y, x)
+                got = [i2.four_neighbors(y, x), bb.four_neighbors((y, x)), i2.four_neighbor_indices((y, x)), bb.four_neighbor_indices(y, x)]
+                for g in got:  # a caller that edits what it was handed must not change later answers (second call is monitored too)
+                    if isinstance(g, list):
+                        if g and rng.random() < 0.5:
+                            g.pop(rng.randrange(len(g)))
+                        else:
+                            g.append((y, x))
+                i2.four_neighbors((y, x)), bb.four_neighbors(y, x), i2.four_neighbor_indices(y, x), bb.four_neighbor_indices((y, x))
         ctx.case(["methods", t], nontrivial=True)
 
 
